@@ -160,6 +160,19 @@ impl Runner {
                 }
                 self.after(mode, None)
             }
+            ["memof", sg] => {
+                let Ok(sg) = sg.parse::<usize>() else { return "bad-op".into() };
+                if c.in_scope() || !c.define_from(sg) {
+                    return "bad-op".into();
+                }
+                match mode {
+                    Mode::C02 => {
+                        c.take_wakes();
+                        format!("ok ready={}", ids(&c.ready()))
+                    }
+                    _ => "ok".into(),
+                }
+            }
             ["onclr", s] => {
                 let Ok(s) = s.parse::<usize>() else { return "bad-op".into() };
                 if !c.set_onclr(s) {
@@ -497,6 +510,10 @@ impl Runner {
                         }
                         if depth == 0 {
                             return false;
+                        }
+                        if let Some(Some(s)) = g.from_of.get(x) {
+                            // a `memof` node mirrors its signal
+                            return reaches(g, *s, sig, depth - 1);
                         }
                         match (&g.defs[x], &g.last[x]) {
                             (Def::Memo(_), Some(r)) => r.treads.iter().any(|t| reaches(g, t.0, sig, depth - 1)),
